@@ -55,7 +55,12 @@ Proof.
           [ apply mapM_const_seq
           | intros i acc d _;
             rewrite <- (bind_ext2 _ _ _ _ d (tournament_body_eq inds ts d) (fun a d' => eq_refl));
-            unfold bind, ret; mcase ] ].
+            unfold bind, ret; mcase ]
+        | (* the comprehension form [max(selRandom(..), key=..) for _ in range(k)] *)
+          unfold gen_selTournament, selTournament; cbv zeta;
+          rewrite (mapM_ext _ (fun _ : nat => aspirants <- selRandom inds ts ;; best_of aspirants) _
+                     (fun i d _ => tournament_body_eq inds ts d));
+          apply mapM_const_seq ].
 Qed.
 
 (* ------------------------------------------------------------------ selRoulette *)
@@ -84,34 +89,56 @@ Proof.
   - destruct (f x), (f y); reflexivity.
 Qed.
 
-Lemma roulette_equiv w inds k (body : Q -> ind -> Q * list ind -> M (ctl (Q * list ind))) :
+(* the threshold only matters up to == *)
+Lemma Qltb_Qeq_l u u' a : (u == u')%Q -> Qltb u a = Qltb u' a.
+Proof.
+  intro E. unfold Qltb. f_equal.
+  destruct (Qle_bool a u) eqn:A, (Qle_bool a u') eqn:B; try reflexivity.
+  - apply Qle_bool_iff in A. rewrite E in A. apply Qle_bool_iff in A. congruence.
+  - apply Qle_bool_iff in B. rewrite <- E in B. apply Qle_bool_iff in B. congruence.
+Qed.
+
+Lemma spin_Qeq w l : forall acc u u', (u == u')%Q -> spin w l acc u = spin w l acc u'.
+Proof.
+  induction l as [|x r IH]; intros acc u u' E; [reflexivity|]. cbn [spin].
+  rewrite (Qltb_Qeq_l u u' _ E). destruct (Qltb u' (acc + val0 w x)); [reflexivity|]. apply IH. exact E.
+Qed.
+
+(* the total may be summed over the population or over any rearrangement of it (the sorted list):
+   the sums are equal as rationals, and the spin depends on the threshold only up to == *)
+Lemma roulette_equiv w inds l' k (body : Q -> ind -> Q * list ind -> M (ctl (Q * list ind))) :
+  Permutation l' inds ->
   (forall u x acc ch d, has_val0 w x = true ->
      body u x (acc, ch) d = Ok (if Qltb u (acc + val0 w x) then Break (acc + val0 w x, ch ++ [x])
                                 else Next (acc + val0 w x, ch))%Q d) ->
   forall ds,
-    (t <- mapM (fun x => index (values w x) 0) inds ;;
+    (t <- mapM (fun x => index (values w x) 0) l' ;;
      chosen <- for_each (seq 0 k) (fun _ chosen =>
                  t3 <- random01 ;;
                  bind (for_break (py_sorted_rev f_lt inds) (body (t3 * qsum t)%Q) (0 # 1, chosen))
                       (fun '(_, chosen) => ret chosen)) [] ;;
      ret chosen) ds = selRoulette w inds k ds.
 Proof.
-  intros Hb ds. unfold selRoulette.
+  intros Hp Hb ds. unfold selRoulette.
   unfold bind at 1.
-  rewrite (mapM_raise _ (val0 w) (has_val0 w) IndexError inds
+  rewrite (mapM_raise _ (val0 w) (has_val0 w) IndexError l'
              (fun x d => index_values0_ok w x d)
              (fun x d H => eq_trans (index_values0 w x d) (f_equal (fun b : bool => if b then _ else _) H))).
+  rewrite (forallb_perm _ _ _ Hp).
   destruct (forallb (has_val0 w) inds) eqn:Hall; [|reflexivity]. cbn [negb].
   assert (Hs : forallb (has_val0 w) (py_sorted_rev f_lt inds) = true).
   { rewrite (forallb_perm _ _ _ (py_sorted_rev_perm f_lt inds)). exact Hall. }
+  assert (HS : (qsum (map (val0 w) l') == sum_fits w inds)%Q).
+  { change (qsum (map (val0 w) l')) with (sum_fits w l'). rewrite !sum_fits_tot. apply tot_perm. exact Hp. }
   match goal with |- context [for_each ?l ?b] =>
     assert (E : forall acc d, for_each l b acc d =
               (ys <- mapM (fun _ => u <- random01 ;; ret (spin w (py_sorted_rev f_lt inds) 0 (u * sum_fits w inds)%Q)) l ;;
                ret (acc ++ flat_map (@opt_list ind) ys)) d)
   end.
   { apply for_each_collect. intros i acc d _. unfold bind, ret. destruct (random01 d) as [u d1| |]; try reflexivity.
-    destruct (roulette_inner w _ _ (Hb (u * qsum (map (val0 w) inds))%Q) _ Hs (0 # 1) acc d1) as [acc' E].
-    rewrite E. reflexivity. }
+    destruct (roulette_inner w _ _ (Hb (u * qsum (map (val0 w) l'))%Q) _ Hs (0 # 1) acc d1) as [acc' E].
+    rewrite E. rewrite (spin_Qeq w _ 0 (u * qsum (map (val0 w) l'))%Q (u * sum_fits w inds)%Q); [reflexivity|].
+    rewrite HS. reflexivity. }
   unfold bind at 1. rewrite E. fold (bind (A := list ind) (B := list ind)).
   unfold bind, ret. rewrite mapM_const_seq. destruct (repeatM k _ ds); reflexivity.
 Qed.
@@ -120,10 +147,15 @@ Lemma gen_selRoulette_eq w inds k ds : gen_selRoulette w inds k ds = selRoulette
 Proof.
   first [ reflexivity
         | unfold gen_selRoulette; cbv zeta;
-          apply (roulette_equiv w inds k (fun u x '(sum_, chosen) =>
-                   t4 <- index (values w x) 0 ;;
-                   if Qltb u (sum_ + t4) then ret (Break ((sum_ + t4)%Q, chosen ++ [x]))
-                   else ret (Next ((sum_ + t4)%Q, chosen))));
+          first [ apply (roulette_equiv w inds inds k (fun u x '(sum_, chosen) =>
+                           t4 <- index (values w x) 0 ;;
+                           if Qltb u (sum_ + t4) then ret (Break ((sum_ + t4)%Q, chosen ++ [x]))
+                           else ret (Next ((sum_ + t4)%Q, chosen))) (Permutation_refl inds))
+                | (* the total summed over the sorted list *)
+                  apply (roulette_equiv w inds (py_sorted_rev f_lt inds) k (fun u x '(sum_, chosen) =>
+                           t4 <- index (values w x) 0 ;;
+                           if Qltb u (sum_ + t4) then ret (Break ((sum_ + t4)%Q, chosen ++ [x]))
+                           else ret (Next ((sum_ + t4)%Q, chosen))) (py_sorted_rev_perm f_lt inds)) ];
           intros u x acc ch d Hx; unfold bind; rewrite (index_values0_ok w x d Hx); mcase ].
 Qed.
 
@@ -321,6 +353,24 @@ Proof.
   rewrite dcd_loop_groups. unfold range_step. rewrite Nat.sub_0_r. reflexivity.
 Qed.
 
+Lemma mapM_map {A B C} (f : B -> M C) (g : A -> B) l : forall ds, mapM f (map g l) ds = mapM (fun x => f (g x)) l ds.
+Proof.
+  induction l as [|x r IH]; intro ds; [reflexivity|]. cbn [map mapM]. apply bind_ext. intros y d.
+  apply bind_ext2; [apply IH|]. reflexivity.
+Qed.
+
+(* the same loop over group numbers, `for j in range((k + 3) // 4): i = 4 * j` *)
+Lemma dcd_equiv_idx l1 l2 k (idx : nat -> nat) (body : nat -> list ind -> M (list ind)) :
+  (forall j, idx j = j * 4) ->
+  (forall j acc d, body j acc d = (g <- dcd_group l1 l2 (idx j) ;; ret (acc ++ g)) d) ->
+  forall ds, (chosen <- for_each (seq 0 ((k + 3) / 4)) body [] ;; ret chosen) ds = dcd_loop ((k + 3) / 4) 0 l1 l2 ds.
+Proof.
+  intros Hi Hb ds. rewrite bind_ret_r.
+  rewrite (for_each_collect _ body (fun j => dcd_group l1 l2 (idx j)) (fun g => g) (fun i acc d _ => Hb i acc d)).
+  rewrite dcd_loop_groups. apply bind_ext2; [|reflexivity].
+  rewrite mapM_map. apply mapM_ext. intros j d _. rewrite Hi. reflexivity.
+Qed.
+
 (* the pair rule, whatever the order of the tests in the source as long as the decisions agree *)
 Ltac tourn_rule :=
   unfold tourn, bind, ret;
@@ -365,7 +415,9 @@ Proof.
           destruct (Nat.ltb (length inds) k); [reflexivity|];
           destruct (Nat.eqb k (length inds) && negb (Nat.eqb (k mod 4) 0)); [reflexivity|];
           apply bind_ext; intros l1 d1; apply bind_ext; intros l2 d2;
-          apply dcd_equiv; intros i acc d; dcd_body ].
+          first [ apply dcd_equiv; intros i acc d; dcd_body
+                | apply (dcd_equiv_idx l1 l2 k (fun j => 4 * j)); [intro; lia | intros j acc d; dcd_body]
+                | apply (dcd_equiv_idx l1 l2 k (fun j => j * 4)); [reflexivity | intros j acc d; dcd_body] ] ].
 Qed.
 
 (* ------------------------------------------------------------------ lexicase family *)
